@@ -1,0 +1,171 @@
+//go:build verif
+
+package playlist
+
+// Contracts for the contract-based deductive verification in /verif (engine: gvc).
+// Comment-only: with the tag off this file is not compiled, with it on it adds no code.
+//
+// Encoder side (C14 / C15): "ensures result in /regex/" is decided by regular-language inclusion of the
+// function's output shape (computed from its SSA for every input) in a grammar written from RFC 8216 /
+// draft-pantos-hls-rfc8216bis section 4, independently of this package's decoder. "emits" clauses state
+// which field feeds the value written after a tag or attribute name.
+
+// lexical classes of RFC 8216 section 4.2
+//@ regex INT /[0-9]+/
+//@ regex DF /[0-9]+(\.[0-9]+)?/
+//@ regex SDF /-?[0-9]+(\.[0-9]+)?/
+//@ regex QS /"[^"\r\n]*"/
+//@ regex ENUM /[^",\r\n \t]+/
+//@ regex NAME /[A-Z0-9\-]+/
+//@ regex VAL /({QS}|{SDF}|[0-9]+x[0-9]+|0[xX][0-9a-fA-F]+|{ENUM})/
+//@ regex ATTRS /{NAME}={VAL}(,{NAME}={VAL})*/
+//@ regex TIME /[0-9]{4}-[0-9]{2}-[0-9]{2}T[0-9]{2}:[0-9]{2}:[0-9]{2}(\.[0-9]{1,3})?(Z|[+\-][0-9]{2}:[0-9]{2})/
+//@ regex URILINE /[^#\r\n][^\r\n]*/
+//@ regex BR /[0-9]+(@[0-9]+)?/
+
+// documented field requirements, as languages of the string-typed fields (the "valid value" precondition)
+//@ holelang *.URI /[^"\r\n]+/
+//@ holelang s.URI /[^#"\r\n][^"\r\n]*/
+//@ holelang v.URI /[^#"\r\n][^"\r\n]*/
+//@ holelang *.Title /[^\r\n]*/
+//@ holelang *.GroupID /[^"\r\n]+/
+//@ holelang *.Name /[^"\r\n]*/
+//@ holelang *.Language /[^"\r\n]*/
+//@ holelang *.Video /[^"\r\n]*/
+//@ holelang *.Audio /[^"\r\n]*/
+//@ holelang *.Subtitles /[^"\r\n]*/
+//@ holelang *.ClosedCaptions /[^"\r\n]*/
+//@ holelang *.KeyFormat /[^"\r\n]*/
+//@ holelang *.KeyFormatVersions /[^"\r\n]*/
+//@ holelang *.IV /0[xX][0-9a-fA-F]+/
+//@ holelang *.Method /(NONE|AES-128|SAMPLE-AES)/
+//@ holelang *.Type /(AUDIO|VIDEO|SUBTITLES|CLOSED-CAPTIONS)/
+//@ holelang *.Resolution /[0-9]+x[0-9]+/
+//@ holelang *.Codecs /[^"\r\n]*/
+//@ holelang *t.Channels /[^"\r\n]*/
+//@ holelang *t.InStreamID /[^"\r\n]*/
+//@ holelang *t.URI /[^"\r\n]+/
+//@ holelang *m.PlaylistType /(EVENT|VOD)/
+//@ holelang m.Version /[0-9]+/
+//@ holelang m.TargetDuration /[0-9]+/
+//@ holelang m.MediaSequence /[0-9]+/
+//@ holelang *m.DiscontinuitySequence /[0-9]+/
+//@ holelang *s.Bitrate /[0-9]+/
+//@ holelang t.SkippedSegments /[0-9]+/
+//@ holelang v.Bandwidth /[0-9]+/
+//@ holelang *v.AverageBandwidth /[0-9]+/
+//@ holelang *v.FrameRate /[0-9]+\.[0-9]{3}/
+//@ holelang s.Duration.Seconds() /[0-9]+\.[0-9]{5}/
+//@ holelang p.Duration.Seconds() /[0-9]+\.[0-9]{5}/
+//@ holelang t.PartTarget.Seconds() /[0-9]+\.[0-9]{5}/
+//@ holelang *t.PartHoldBack.Seconds() /[0-9]+\.[0-9]{5}/
+//@ holelang *t.CanSkipUntil.Seconds() /[0-9]+\.[0-9]{5}/
+
+//@ func MediaPart.marshal
+//@   props C14 C15
+//@   nosafety
+//@   ensures result in /#EXT-X-PART:DURATION={DF},URI={QS}(,INDEPENDENT=YES)?(,BYTERANGE=("{BR}"|{BR}))?(,GAP=YES)?\n/
+//@   ensures result in /#EXT-X-PART:DURATION={DF},URI={QS}(,INDEPENDENT=YES)?(,BYTERANGE="{BR}")?(,GAP=YES)?\n/
+//@   emits "DURATION=" p.Duration
+//@   emits "URI=\"" p.URI
+//@ end
+
+//@ func MediaPartInf.marshal
+//@   props C14 C15
+//@   nosafety
+//@   ensures result in /#EXT-X-PART-INF:PART-TARGET={DF}\n/
+//@   emits "PART-TARGET=" t.PartTarget
+//@ end
+
+//@ func MediaSkip.marshal
+//@   props C14 C15
+//@   nosafety
+//@   ensures result in /#EXT-X-SKIP:SKIPPED-SEGMENTS={INT}\n/
+//@   emits "SKIPPED-SEGMENTS=" t.SkippedSegments
+//@ end
+
+//@ func MediaServerControl.marshal
+//@   props C14 C15
+//@   nosafety
+//@   ensures result in /#EXT-X-SERVER-CONTROL:({ATTRS})?\n/
+//@   ensures result in /#EXT-X-SERVER-CONTROL:(CAN-BLOCK-RELOAD=YES)?(,?PART-HOLD-BACK={DF})?(,?CAN-SKIP-UNTIL={DF})?\n/
+//@   emits "PART-HOLD-BACK=" t.PartHoldBack
+//@   emits "CAN-SKIP-UNTIL=" t.CanSkipUntil
+//@ end
+
+//@ func MediaPreloadHint.marshal
+//@   props C14 C15
+//@   nosafety
+//@   ensures result in /#EXT-X-PRELOAD-HINT:TYPE=PART,URI={QS}(,BYTERANGE-START={INT})?(,BYTERANGE-LENGTH={INT})?\n/
+//@   emits "URI=\"" t.URI
+//@   emits "BYTERANGE-START=" t.ByteRangeStart
+//@   emits "BYTERANGE-LENGTH=" *t.ByteRangeLength
+//@ end
+
+//@ func MediaMap.marshal
+//@   props C14 C15
+//@   nosafety
+//@   ensures result in /#EXT-X-MAP:URI={QS}(,BYTERANGE=("{BR}"|{BR}))?\n/
+//@   ensures result in /#EXT-X-MAP:URI={QS}(,BYTERANGE="{BR}")?\n/
+//@   emits "URI=\"" t.URI
+//@ end
+
+//@ func MediaKey.marshal
+//@   props C14 C15
+//@   nosafety
+//@   ensures result in /#EXT-X-KEY:METHOD=(NONE|AES-128|SAMPLE-AES)(,URI={QS}(,IV=0[xX][0-9a-fA-F]+)?(,KEYFORMAT={QS})?(,KEYFORMATVERSIONS={QS})?)?\n/
+//@   emits "METHOD=" t.Method
+//@ end
+
+//@ func MultivariantStart.marshal
+//@   props C14 C15
+//@   nosafety
+//@   ensures result in /#EXT-X-START:TIME-OFFSET={SDF}\n/
+//@   emits "TIME-OFFSET=" t.TimeOffset
+//@ end
+
+//@ func MultivariantVariant.marshal
+//@   props C14 C15 C16
+//@   nosafety
+//@   ensures result in /#EXT-X-STREAM-INF:BANDWIDTH={INT}(,AVERAGE-BANDWIDTH={INT})?,CODECS={QS}(,RESOLUTION=[0-9]+x[0-9]+)?(,FRAME-RATE={DF})?(,VIDEO={QS})?(,AUDIO={QS})?(,SUBTITLES={QS})?(,CLOSED-CAPTIONS={QS})?\n{URILINE}\n/
+//@   emits "#EXT-X-STREAM-INF:BANDWIDTH=" v.Bandwidth
+//@   emits "AVERAGE-BANDWIDTH=" *v.AverageBandwidth
+//@   emits "RESOLUTION=" v.Resolution
+//@   emits "AUDIO=\"" v.Audio
+//@ end
+
+//@ func MultivariantRendition.marshal
+//@   props C14 C15 C16
+//@   nosafety
+//@   ensures result in /#EXT-X-MEDIA:TYPE=(AUDIO|VIDEO|SUBTITLES|CLOSED-CAPTIONS),GROUP-ID={QS}(,LANGUAGE={QS})?(,NAME={QS})?(,AUTOSELECT=YES)?(,DEFAULT=YES)?(,FORCED=YES)?(,CHANNELS={QS})?(,URI={QS})?(,INSTREAM-ID={QS})?\n/
+//@   emits "GROUP-ID=\"" t.GroupID
+//@   emits "NAME=\"" t.Name
+//@   emits "LANGUAGE=\"" t.Language
+//@ end
+
+//@ func MediaSegment.marshal
+//@   props C14 C15
+//@   nosafety
+//@   ensures result in /(#EXT-X-DISCONTINUITY\n)?(#EXT-X-GAP\n)?(#EXT-X-PROGRAM-DATE-TIME:{TIME}\n)?(#EXT-X-BITRATE:{INT}\n)?(#EXT-X-PART:{ATTRS}\n)*#EXTINF:{DF},[^\r\n]*\n(#EXT-X-BYTERANGE:{BR}\n)?{URILINE}\n/
+//@   emits "#EXTINF:" s.Duration
+//@   emits "#EXT-X-BITRATE:" *s.Bitrate
+//@ end
+
+//@ func Media.Marshal
+//@   props C14 C15
+//@   nosafety
+//@   ensures result0 in /#EXTM3U\n#EXT-X-VERSION:{INT}\n(#EXT-X-INDEPENDENT-SEGMENTS\n)?(#EXT-X-START:TIME-OFFSET={SDF}\n)?(#EXT-X-ALLOW-CACHE:(YES|NO)\n)?#EXT-X-TARGETDURATION:{INT}\n(#EXT-X-SERVER-CONTROL:({ATTRS})?\n)?(#EXT-X-PART-INF:{ATTRS}\n)?#EXT-X-MEDIA-SEQUENCE:{INT}\n(#EXT-X-DISCONTINUITY-SEQUENCE:{INT}\n)?(#EXT-X-PLAYLIST-TYPE:(EVENT|VOD)\n)?(#EXT-X-MAP:{ATTRS}\n)?(#EXT-X-SKIP:{ATTRS}\n)?((#EXT-X-KEY:{ATTRS}\n)?(#EXT-X-DISCONTINUITY\n)?(#EXT-X-GAP\n)?(#EXT-X-PROGRAM-DATE-TIME:{TIME}\n)?(#EXT-X-BITRATE:{INT}\n)?(#EXT-X-PART:{ATTRS}\n)*#EXTINF:{DF},[^\r\n]*\n(#EXT-X-BYTERANGE:{BR}\n)?{URILINE}\n)*(#EXT-X-PART:{ATTRS}\n)*(#EXT-X-PRELOAD-HINT:{ATTRS}\n)?(#EXT-X-ENDLIST\n)?/
+//@   emits "#EXT-X-VERSION:" m.Version
+//@   emits "#EXT-X-TARGETDURATION:" m.TargetDuration
+//@   emits "#EXT-X-MEDIA-SEQUENCE:" m.MediaSequence
+//@   emits "#EXT-X-DISCONTINUITY-SEQUENCE:" *m.DiscontinuitySequence
+//@   emits "#EXT-X-PLAYLIST-TYPE:" *m.PlaylistType
+//@   emits "#EXT-X-START:TIME-OFFSET=" m.Start.TimeOffset
+//@ end
+
+//@ func Multivariant.Marshal
+//@   props C14 C15 C16
+//@   nosafety
+//@   ensures result0 in /#EXTM3U\n#EXT-X-VERSION:{INT}\n(#EXT-X-INDEPENDENT-SEGMENTS\n)?(#EXT-X-START:TIME-OFFSET={SDF}\n)?(\n(#EXT-X-MEDIA:{ATTRS}\n)*)?\n(#EXT-X-STREAM-INF:{ATTRS}\n{URILINE}\n)*/
+//@   emits "#EXT-X-VERSION:" m.Version
+//@ end
